@@ -4,9 +4,9 @@
 package c17
 
 import (
-	"github.com/openfga/openfga/internal/verifh/e1"
 	"context"
 	"fmt"
+	"github.com/openfga/openfga/internal/verifh/e1"
 	"sort"
 	"strings"
 	"time"
